@@ -185,4 +185,16 @@ theorem bridge_get_units_shape :
     Gen.C09.unreporting_policy = ["handle_unreporting == 'drop' : data = data.dropna(axis=0, how='any', subset=result_cols)", "handle_unreporting == 'zero' : indices_with_null_val = data[result_cols].isna().any(axis=1) ; data.update(data[result_cols].fillna(value=0)) ; data.loc[indices_with_null_val, 'percent_expected_vote'] = 0"] :=
   ⟨rfl, rfl, rfl, rfl, rfl, rfl, rfl, rfl, rfl, rfl, rfl⟩
 
+/-- the derived quantities of the `Estimandizer` as written in the source -/
+theorem bridge_estimandizer (dem gop : ℚ) :
+    margin dem gop = Gen.C09.est_margin dem gop ∧ twoParty dem gop = Gen.C09.est_weights dem gop ∧
+    normMargin dem gop = Gen.C09.est_normalized_margin dem gop := ⟨rfl, rfl, rfl⟩
+
+theorem bridge_turnout_factor (w bw : ℚ) : turnoutFactor (some w) bw = Gen.C09.turnout_factor w bw := rfl
+
+theorem bridge_baseline_plus_one (b : ℚ) : Gen.C09.last_election_results b = b + 1 := rfl
+
+theorem bridge_default_weights :
+    Gen.C09.default_weights = ["data_df[f'{col_prefix}weights'] = data_df[f'{col_prefix}turnout']"] := rfl
+
 end ElexModel.Units
